@@ -202,6 +202,16 @@ theorem C02_nothing_invalid (K : Closures) (c : Cfg) (pre post : List Val) (f : 
     Stk.String K ⟨c, pre ++ .cnd f c' kw op ex :: post⟩ = Stk.String K ⟨c, pre ++ post⟩ :=
   C02_nothing K c pre post _ (elemText_invalid_cond K c f c' kw op ex hv)
 
+/-- **C02 (nothing), zero-valued Condition or Stack** (any form: native, alias, pointer to alias). Such an element is
+invalid; it contributes nothing and leaves no dangling operator (repair F38: it used to render as `UNKNOWN`). -/
+theorem C02_nothing_zero_cond (K : Closures) (c : Cfg) (pre post : List Val) (f : Form) :
+    Stk.String K ⟨c, pre ++ .zcnd f :: post⟩ = Stk.String K ⟨c, pre ++ post⟩ :=
+  C02_nothing K c pre post _ (by rw [elemText])
+
+theorem C02_nothing_zero_stack (K : Closures) (c : Cfg) (pre post : List Val) (f : Form) :
+    Stk.String K ⟨c, pre ++ .zstk f :: post⟩ = Stk.String K ⟨c, pre ++ post⟩ :=
+  C02_nothing K c pre post _ (by rw [elemText])
+
 /-! ## 6. leaf texts survive verbatim -/
 
 /-- `String()` without presentation policy is solid (= whitespace-normal) -/
